@@ -1545,7 +1545,8 @@ class Compiler:
             yield EmitText(node.prefix + node.name + node.suffix)
 
     def visit_End(self, node):
-        yield EmitText(node.prefix + node.name + node.space + node.suffix)
+        # the suffix already starts with the whitespace captured as ``space``
+        yield EmitText(node.prefix + node.name + node.suffix)
 
     def visit_Attribute(self, node):
         attr_format = (node.space + node.name + node.eq +
